@@ -39,6 +39,35 @@ int main(int argc, char** argv) {
       if (tr[i].unix_time < -(1LL << 59) || tr[i].unix_time > (1LL << 59)) return fail("transition time outside +-2^59", i);
       prev = tr[i].type_index;
     }
+    {
+      // the before-first-transition type, re-read from the file bytes by tzcode's rule (independent of Load's own bookkeeping)
+      auto be32 = [&](std::size_t o) { return (static_cast<unsigned long>(static_cast<unsigned char>(img[o])) << 24) | (static_cast<unsigned long>(static_cast<unsigned char>(img[o + 1])) << 16) |
+                                              (static_cast<unsigned long>(static_cast<unsigned char>(img[o + 2])) << 8) | static_cast<unsigned long>(static_cast<unsigned char>(img[o + 3])); };
+      std::size_t hb = 0, tlen = 4;
+      if (img.size() >= 44 && img[4] != 0) {   // version 2+: the 64-bit block follows the 32-bit one
+        hb = 44 + 5 * be32(32) + 6 * be32(36) + be32(40) + 8 * be32(28) + be32(24) + be32(20); tlen = 8;
+      }
+      if (img.size() >= hb + 44) {
+        const std::size_t timecnt = be32(hb + 32), typecnt = be32(hb + 36);
+        const std::size_t tb = hb + 44 + tlen * timecnt, yb = tb + timecnt;
+        if (img.size() >= yb + 6 * typecnt && typecnt >= 1 && typecnt <= 256) {
+          auto isdst = [&](std::size_t t) { return img[yb + 6 * t + 4] != 0; };
+          bool used0 = false;
+          for (std::size_t i = 0; i < timecnt; i++) used0 = used0 || img[tb + i] == 0;
+          std::size_t want = 0;
+          if (used0 && timecnt != 0) {
+            std::size_t i = 0;
+            if (isdst(0)) { i = static_cast<unsigned char>(img[tb]); while (i != 0 && isdst(i)) --i; }
+            while (i != typecnt && isdst(i)) ++i;
+            if (i != typecnt && i <= 255) want = i;
+          }
+          if (z.default_transition_type_ != want) {
+            fprintf(stderr, "WF violated: default (before-first-transition) type is %d, the file designates %zu\n", static_cast<int>(z.default_transition_type_), want);
+            return 3;
+          }
+        }
+      }
+    }
     for (std::size_t t = 0; t < ty.size(); t++) {
       if (ty[t].utc_offset <= -86400 || ty[t].utc_offset >= 86400) return fail("utc_offset outside +-24h", t);
       if (ty[t].abbr_index >= z.abbreviations_.size()) return fail("abbr_index out of range", t);
